@@ -130,6 +130,25 @@ func c16r1(c *core.Ctx) {
 
 func c16r2(c *core.Ctx) {
 	p := c.P
+	// the typed setters store through SetBytes under the tag they are given
+	for _, name := range []string{"SetString", "SetByte"} {
+		g := p.Func("util", "(*tlv8Container)."+name)
+		if g == nil {
+			continue
+		}
+		ok := false
+		core.Instrs(g, func(i ssa.Instruction) {
+			h := core.Callee(i)
+			if h == nil || cn(h) != "SetBytes" || len(g.Blocks) != 1 {
+				return
+			}
+			a := core.Args(i)
+			if len(a) == 2 && valIs(a[0], g.Params[1]) && (operandReaches(a[1], g.Params[2], 6) || core.AnySource(a[1], func(s ssa.Value) bool { return s == ssa.Value(g.Params[2]) })) {
+				ok = true
+			}
+		})
+		c.Check(ok, "setter-delegates:"+name, g.Pos(), name+" stores its value through SetBytes under its tag", name+" does not store the value it is given (under the tag it is given): the item is missing from the message")
+	}
 	f := p.Func("util", "(*tlv8Container).SetBytes")
 	if f == nil {
 		c.Undecided("SetBytes", token.NoPos, "not found")
@@ -272,6 +291,9 @@ func c16r2(c *core.Ctx) {
 }
 
 func c16r3(c *core.Ctx) {
+	if f := c.P.Func("util", "NewTLV8ContainerFromReader"); f != nil {
+		errorTestPolarity(c, f, nil)
+	}
 	p := c.P
 	r := p.Func("util", "NewTLV8ContainerFromReader")
 	if r == nil {
